@@ -503,6 +503,11 @@ def families(tier):
                         ((1, 2, 4097), (1,)), ((1, 2, 4097), (2,)), ((1, 4097, 2), (1,)), ((1, 4097, 2), (0,)), ((2, 4097), (0,)), ((2, 4097), (1,)), ((4097, 2), (0,))):
             for keep in (True, False):
                 add("mean.%s.ax%s.%s" % ("x".join(map(str, shape)), "_".join(map(str, axes)), "keep" if keep else "drop"), mean(shape, axes, keep))
+    # depth reduction with the size-1 dimension in every position (H, W or C of a 3D / 4D input) and in none
+    for shape in ((1, 8, 16), (8, 1, 16), (8, 16, 1), (4, 8, 16), (1, 1, 8, 16), (1, 8, 1, 16), (1, 8, 16, 1), (1, 4, 8, 16)):
+        for axes in ((len(shape) - 1,), (-1,)):
+            for keep in (True, False):
+                add("mean.depth.%s.ax%s.%s" % ("x".join(map(str, shape)), "_".join(map(str, axes)), "keep" if keep else "drop"), mean(shape, axes, keep))
     for dt in ("uint8", "int16"):
         add("mean.%s" % dt, mean((1, 8, 8, 8), (1, 2), dt=dt))
     add("mean.i16.prod65536", mean((1, 256, 256, 1), (1, 2), dt="int16"))
